@@ -82,4 +82,32 @@ def extractThen {α} (p : List Nat → α) (hdr : Option (List Nat)) (N : Nat)
   | .ok b => some (p b)
   | _ => none
 
+/-- `BodySizeLimit` -/
+inductive Limit where
+  | enabled (maxSize : Nat)
+  | disabled
+  deriving Repr, DecidableEq
+
+/-- `body.collect()` without a limit (`BodySizeLimit::Disabled`). -/
+def collectAll : List Frame → List Nat → Outcome
+  | [], acc => .ok acc
+  | .data bs :: fs, acc => collectAll fs (acc ++ bs)
+  | .trailers :: fs, acc => collectAll fs acc
+  | .err :: _, _ => .bufferErr
+
+/-- the PUBLIC `BufferedBody::extract(request_head, body, body_size_limit)`: with a limit the body goes through
+    `_extract_with_limit` whatever the request head says; only `Disabled` buffers everything. -/
+def extract (hdr : Option (List Nat)) (l : Limit) (frames : List Frame) : Outcome :=
+  match l with
+  | .enabled n => extractWithLimit hdr n frames
+  | .disabled => collectAll frames []
+
+/-- the variant a seeded change introduced: "a request without Content-Length (and without Transfer-Encoding) has no body",
+    so it is collected without the limit. True of HTTP/1.1, false of HTTP/2, where END_STREAM ends the body. -/
+def extractSkipUnannounced (hdr : Option (List Nat)) (l : Limit) (frames : List Frame) : Outcome :=
+  match l, hdr with
+  | .enabled n, some _ => extractWithLimit hdr n frames
+  | _, _ => collectAll frames []
+
 end Pxv.Body
+
